@@ -12,6 +12,9 @@ import z3
 # expression DAG
 
 
+WIDE_HASH = [1 << 16]
+
+
 class Unsupported(Exception):
     """an operation the engine cannot encode; the obligation is inconclusive, never 'ok'"""
 
@@ -323,6 +326,13 @@ def n_div(a, m):
     return mk("div", (a, m), a.lo // m, a.hi // m)
 
 
+def n_divs(a, b):
+    """a // b for a >= 0 and a *symbolic* b > 0 on the current path (symx/fpx.py: quotient step of the float rounding model)"""
+    if is_const(b):
+        return n_div(a, b.args[0])
+    return mk("divs", (a, b), max(a.lo, 0) // max(b.hi, 1), max(a.hi, 0) // max(b.lo, 1))
+
+
 def n_ite(c, a, b):
     if c is TRUE:
         return a
@@ -568,6 +578,9 @@ def low(n, k):
             rem = z3.If(rem < 0, rem + mm, rem)
             rr = (xx - rem) / mm
             r = _fit(rr, Wx, k, signed=True)
+    elif op == "divs":
+        Wx = max(a[0].W, a[1].W)    # both operands are non-negative on the path: unsigned division at a width holding both
+        r = _fit(z3.UDiv(low(a[0], Wx), low(a[1], Wx)), Wx, k)
     elif op == "ite":
         r = z3.If(lowb(a[0], "bv"), low(a[1], k), low(a[2], k))
     elif op == "uf":
@@ -691,6 +704,8 @@ def lowi(n):
         r = lowi(a[0]) % z3.IntVal(a[1])
     elif op == "div":
         r = lowi(a[0]) / z3.IntVal(a[1])
+    elif op == "divs":
+        r = lowi(a[0]) / lowi(a[1])
     elif op == "byte":
         x, i = a
         r = (lowi(x) / z3.IntVal(1 << (8 * i))) % 256 if i else lowi(x) % 256
@@ -820,6 +835,8 @@ def evaln(n, env, memo=None):
         r = -E(a[0])
     elif op in ("shl", "shr", "mod", "div", "byte"):
         r = _FOLD[op](E(a[0]), a[1])
+    elif op == "divs":
+        r = E(a[0]) // E(a[1])
     elif op == "cat":
         r = 0
         for it in a:
@@ -923,7 +940,11 @@ class Ctx:
 
     def query(self, extra, timeout_ms=None):
         """check pre ∧ pc ∧ extra; returns 'sat'/'unsat'/'unknown' (model kept on sat)"""
-        self.solver.set("timeout", timeout_ms or self.timeout_ms)
+        tmo = timeout_ms or self.timeout_ms
+        if DEADLINE[0] is not None:
+            # the obligation's wall budget: no single query may run past it (an `unknown` answer is handled conservatively by callers)
+            tmo = max(1, min(tmo, int((DEADLINE[0] - time.time()) * 1000)))
+        self.solver.set("timeout", tmo)
         t = time.time()
         self.solver.push()
         try:
@@ -956,6 +977,7 @@ class Ctx:
 
 
 CTX = None
+DEADLINE = [None]   # absolute time.time() after which explorations of this process wind up (set by the obligation runner)
 
 
 def ctx():
@@ -1033,6 +1055,20 @@ def concretize(x, limit=None):
             c.cand[c.pos] = v
         if branch(b_cmp("eq", n, const(v))):
             return v
+
+
+def _many_values(nodes, k=4):
+    """True when the current path admits more than k joint values of the nodes (at most k+1 queries, no decision recorded);
+    values pinned by the path condition are then still concretised as before"""
+    c = CTX
+    excl = []
+    for _ in range(k + 1):
+        if c.query(excl) != "sat":
+            return False
+        m = c.model
+        same = [c.lower(b_cmp("eq", n, const(model_int(m, n, c.mode)))) for n in nodes]
+        excl.append(z3.Not(z3.And(*same)) if len(same) > 1 else z3.Not(same[0]))
+    return True
 
 
 def model_int(model, n, mode):
@@ -1123,6 +1159,9 @@ def explore(fn, mode="bv", max_paths=20000, timeout_ms=20000, wall_s=None, pre=N
                 return c, out
             if wall_s is not None and time.time() - t0 > wall_s:
                 c.inconclusive.append(f"wall budget {wall_s}s exceeded")
+                return c, out
+            if DEADLINE[0] is not None and time.time() > DEADLINE[0]:
+                c.inconclusive.append("obligation wall budget exhausted: exploration incomplete")
                 return c, out
     finally:
         CTX = prev
@@ -1295,6 +1334,8 @@ class SI:
     hi = property(lambda s: s.n.hi)
 
     def __add__(s, o):
+        if isinstance(o, float):
+            return Ratio(s, o, "add")
         if not isinstance(o, (SI, int, SB)):
             return NotImplemented
         return wrap(n_add(s.n, lift(o)))
@@ -1302,11 +1343,15 @@ class SI:
     __radd__ = __add__
 
     def __sub__(s, o):
+        if isinstance(o, float):
+            return Ratio(s, o, "sub")
         if not isinstance(o, (SI, int, SB)):
             return NotImplemented
         return wrap(n_sub(s.n, lift(o)))
 
     def __rsub__(s, o):
+        if isinstance(o, float):
+            return Ratio(o, s, "sub")
         if not isinstance(o, (SI, int, SB)):
             return NotImplemented
         return wrap(n_sub(lift(o), s.n))
@@ -1406,10 +1451,10 @@ class SI:
         return (s // m, s % m)
 
     def __truediv__(s, o):
-        return Ratio(s, 1) / o
+        return _fpx.binop("div", s, o)
 
     def __rtruediv__(s, o):
-        return Ratio(o, 1) / s
+        return _fpx.binop("div", o, s)
 
     def __pow__(s, e, mod=None):
         e = concretize(e)
@@ -1419,6 +1464,9 @@ class SI:
             if mod is None:
                 raise Unsupported("negative power")
             raise Unsupported("modular inverse of symbolic value (no field model active)")
+        if mod is not None and e.bit_length() > 32 and mod.bit_length() > 32:
+            # e.g. a square root / inverse mod the secp256k1 prime by exponentiation: hundreds of 256-bit symbolic multiplications
+            raise Unsupported("modular exponentiation of a symbolic base with a wide exponent (no field model active)")
         result = 1
         base = s
         if mod is not None:
@@ -1445,7 +1493,7 @@ class SI:
         if isinstance(o, float):
             return _cmp_float(s, o, op, swap, neg)
         if isinstance(o, Ratio):
-            return NotImplemented
+            return o._cmp(s, op, not swap, neg)
         if not isinstance(o, (SI, int, SB)):
             return NotImplemented
         a, b = s.n, lift(o)
@@ -1480,7 +1528,16 @@ class SI:
         return bool(s != 0)
 
     def __hash__(s):
-        # hashing a symbolic value (dict key / set member) needs its value: concretise
+        # hashing a symbolic value (dict key / set member) needs its value: concretise -- unless the value has too many
+        # candidates to enumerate.  Then every such value hashes alike, so that set/dict lookups among symbolic keys are decided
+        # by == (which forks); a lookup against *concrete* keys of the same container would be missed, hence the path set is
+        # marked inconclusive (a witness found on such a path is still replayed on the real code, so no false alarm arises).
+        if s.n.op != "const" and s.n.hi - s.n.lo >= WIDE_HASH[0] and CTX is not None and _many_values([s.n]):
+            note = ("a symbolic int with more than 2^16 candidate values was hashed (set/dict key): compared by equality with other "
+                    "symbolic keys only; lookups against concrete keys of the same container are not modelled")
+            if note not in CTX.inconclusive:
+                CTX.inconclusive.append(note)
+            return 0x5157
         return hash(concretize(s))
 
     def __index__(s):
@@ -1499,16 +1556,23 @@ class SI:
 
     def bit_length(s):
         if s.n.lo >= 0:
-            # fork over the lengths
-            for k in range(s.n.hi.bit_length() + 1):
-                if s < (1 << k):
+            # fork over the lengths, longest first (the short ones are the rare values: explored last, found all the same)
+            for k in range(s.n.hi.bit_length(), 0, -1):
+                if s >= (1 << (k - 1)):
                     return k
+            return 0
         raise Unsupported("bit_length of possibly negative symbolic value")
 
     def to_bytes(s, length=1, byteorder="big", *, signed=False):
         length = concretize(length)
         if signed:
-            raise Unsupported("signed to_bytes")
+            # two's complement: range check as CPython does, then one path per sign
+            half = 1 << (8 * length - 1) if length else 0
+            if s < -half or s >= half:
+                raise OverflowError("int too big to convert")
+            if s < 0:
+                return (s + (1 << (8 * length))).to_bytes(length, byteorder)
+            return s.to_bytes(length, byteorder)
         if s < 0:
             raise OverflowError("can't convert negative int to unsigned")
         if s >= (1 << (8 * length)):
@@ -1565,93 +1629,20 @@ def _clamp(n, lo, hi):
     return n
 
 
-class Ratio:
-    """exact rational num/den (den > 0 concrete or symbolic positive) standing for CPython's true division
-    in comparisons and ceil/floor.  The floating-point rounding of the real `/` is *not* modelled here; the
-    places where that matters are covered by explicit FP lemmas (DESIGN C20) or flagged by the harness."""
+from . import fpx as _fpx  # noqa: E402
 
-    def __init__(self, num, den):
-        self.num = num
-        self.den = den
 
-    def __truediv__(self, o):
-        if isinstance(o, Ratio):
-            return Ratio(self.num * o.den, self.den * o.num)
-        return Ratio(self.num, self.den * o)
-
-    def _c(self, o):
-        if isinstance(o, Ratio):
-            return self.num * o.den, o.num * self.den
-        if isinstance(o, float):
-            n, d = o.as_integer_ratio()
-            return self.num * d, n * self.den
-        return self.num, o * self.den
-
-    def __lt__(self, o):
-        a, b = self._c(o)
-        return a < b
-
-    def __le__(self, o):
-        a, b = self._c(o)
-        return a <= b
-
-    def __gt__(self, o):
-        a, b = self._c(o)
-        return a > b
-
-    def __ge__(self, o):
-        a, b = self._c(o)
-        return a >= b
-
-    def __eq__(self, o):
-        a, b = self._c(o)
-        return a == b
-
-    def __ceil__(self):
-        return -((-self.num) // self.den)
-
-    def __floor__(self):
-        return self.num // self.den
-
-    def __int__(self):
-        q = self.num // self.den
-        return q  # callers only use this for non-negative values
-
-    # display-only arithmetic (percentages in summary texts): scaling by an integer / another ratio stays exact; round() is
-    # only meaningful for text, so it keeps the exact value and formats opaquely
-    def __mul__(self, o):
-        if isinstance(o, Ratio):
-            return Ratio(self.num * o.num, self.den * o.den)
-        if isinstance(o, float):
-            raise Unsupported("Ratio * float")
-        return Ratio(self.num * o, self.den)
-
-    __rmul__ = __mul__
-
-    def __round__(self, ndigits=None):
-        return self
-
-    def __format__(self, spec):
-        return "<sym ratio>"
-
-    def __repr__(self):
-        return "<sym ratio>"
-
-    __str__ = __repr__
+class Ratio(_fpx.FExpr):
+    """result of CPython's true division / of arithmetic with a float: a lazy tree of IEEE-754 double operations over
+    int / SI / float leaves, evaluated with exact round-to-nearest-even semantics on observation (comparison, int(),
+    math.ceil / floor, bool()).  Ratio(num, den) is the node num / den; Ratio(a, b, op) with op in div, mul, add, sub.
+    The model, its limits and the exact-rational fast path for small int / int quotients are described in symx/fpx.py."""
 
 
 def _mul_float(s, f):
-    """SI * float in the one case where CPython's result is exact: f = +-2^k and |s| < 2^53 (int -> double is exact and
-    scaling by a power of two does not round).  The product is returned as an exact Ratio; anything that could round is
-    Unsupported (inconclusive), never silently approximated."""
-    import math
-    if f != f or f in (float("inf"), float("-inf")) or f == 0:
-        raise Unsupported("float multiplication (non-finite or zero operand)")
-    m, e = math.frexp(f)
-    if abs(m) != 0.5 or not -900 < e < 900 or max(abs(s.n.lo), abs(s.n.hi)) >= (1 << 53):
-        raise Unsupported("float multiplication that may round")
-    num, den = f.as_integer_ratio()
-    return Ratio(s * num, den)
+    """SI * concrete float: an ordinary node of the float expression tree (the int operand is converted to double with
+    rounding, then the product is rounded; see symx/fpx.py)"""
+    return Ratio(s, f, "mul")
 
 
 def _cmp_float(s, f, op, swap, neg):
@@ -1858,6 +1849,14 @@ class SBytes:
             c = n_cat([lift(i) for i in self.items])
             if c.op not in ("cat", "const"):
                 return hash(("sbytes", c.id, len(self.items)))
+        symn = [i.n for i in self.items if isinstance(i, SI) and i.n.op != "const"]
+        if len(symn) >= 3 and CTX is not None and _many_values(symn):
+            # too many candidate values to enumerate (see SI.__hash__): all such strings hash alike and are told apart by ==
+            note = ("a byte string with three or more symbolic bytes was hashed (set/dict key): compared by equality with other "
+                    "symbolic keys only; lookups against concrete keys of the same container are not modelled")
+            if note not in CTX.inconclusive:
+                CTX.inconclusive.append(note)
+            return 0x5158
         return hash(concretize_bytes(self))
 
     def __bool__(self):
@@ -1952,7 +1951,11 @@ def int_from_bytes(b, byteorder="big", *, signed=False):
     if isinstance(b, (bytes, bytearray)):
         return int.from_bytes(b, byteorder, signed=signed)
     if signed:
-        raise Unsupported("signed from_bytes on symbolic bytes")
+        u = int_from_bytes(b, byteorder)
+        nb = len(b)
+        if nb and u >= (1 << (8 * nb - 1)):     # one path per sign
+            return u - (1 << (8 * nb))
+        return u
     items = list(b)
     if byteorder == "little":
         items = items[::-1]
